@@ -130,11 +130,13 @@ class Executor:
             elif kind == 'bonds':
                 self.write_file(os.path.join(d, 'protein_bonds.json'), '{"ALA": {}}')
             elif kind == 'stale_pka':
+                # longer than any output, so that an overwrite that does not
+                # truncate, or an append, leaves a visible tail
+                stale = 'stale line\n' + ''.join(
+                    'stale pka content %05d\n' % n for n in range(6000))
                 for stem in dec['stems']:
-                    self.write_file(os.path.join(d, stem + '.pka'),
-                                    'stale line\nstale pka content\n')
-                    self.write_file(os.path.join(d, stem + '_alt_state.pka'),
-                                    'stale line\nstale alt content\n')
+                    self.write_file(os.path.join(d, stem + '.pka'), stale)
+                    self.write_file(os.path.join(d, stem + '_alt_state.pka'), stale)
             elif kind == 'same_pdb':
                 self.write_file(os.path.join(d, dec['stem'] + '.pdb'), dec['text'])
 
